@@ -390,8 +390,14 @@ class Prober(Hooks):
         # operation
         target = copy.deepcopy(s) if q else s
         nops = len(target.operations)
+        # every operation takes an optional commentary, any text (a note
+        # pasted from a text box has line breaks); it is no reason to refuse
+        kw = {}
+        if self.nprobes % 4 == 0:
+            kw = {'commentary': 'first line\nsecond line\ttab "quoted"'}
+            self.stats.count('probes_with_multi_line_commentary')
         try:
-            r = getattr(target, kind)(*args)
+            r = getattr(target, kind)(*args, **kw)
             ok = True
             err = None
         except ALLOWED_REFUSALS as e:
